@@ -14,7 +14,7 @@ from collections import namedtuple
 
 import rx
 
-from ..common import Check, Outcome, Snap, subscribe, bootstrap, WORK
+from ..common import Check, Outcome, Snap, subscribe, subscribe2, bootstrap, WORK
 
 rs = bootstrap()
 import rxsci.container.csv as csv                    # noqa: E402
@@ -172,8 +172,8 @@ class C18(Check):
                 out.observed['rows_needing_quote_merge'] += 1
 
         if case['mode'] == 'stream':
-            got = subscribe(rx.from_(src).pipe(csv.dump(separator=sep, escapechar=esc), line.unframe(),
-                                               csv.load(parser)), Snap())
+            got = subscribe2(rx.from_(src).pipe(csv.dump(separator=sep, escapechar=esc), line.unframe(),
+                                                csv.load(parser)), out, 'dump | unframe | load', same=lambda x, y: repr(x) == repr(y))
         else:
             enc = case['encoding']
             out.tags.append('enc=%s' % enc)
@@ -194,7 +194,7 @@ class C18(Check):
             out.observed['file_bytes'] += size
             if size > 65536:
                 out.tags.append('multi-chunk-file')
-            got = subscribe(csv.load_from_file(path, parser, encoding=enc), Snap())
+            got = subscribe2(csv.load_from_file(path, parser, encoding=enc), out, 'load_from_file', same=lambda x, y: repr(x) == repr(y))
 
         def mech_of(i=None, j=None):
             """mechanism classifier (only used if a finding is recorded as known instead of fixed)"""
